@@ -367,3 +367,30 @@ def unit_orig_text(u, repo=None):
     with open(os.path.join(repo or REPO, u['file'])) as f:
         lines = f.read().split('\n')
     return '\n'.join(lines[a - 1:z])
+
+
+# ---- inventory of impls and derives --------------------------------------------------------------------------------------
+# Trait impls that are not under contract (derive-generated or hand-written `impl Zeroize / Clone / Default / From ...`) are
+# trusted to satisfy the trait-level contract. That trust is given to the impls that existed when the contracts were written:
+# the list of `impl` headers and of `#[derive(..)]` attributes per type in each source file is recorded in
+# inventory_baseline.json; a new, removed or re-derived impl in a file that holds units of the property makes the check
+# UNDECIDED (then the witness search decides), never a violation by itself.
+def item_inventory(path):
+    import rstok
+    src = open(path).read()
+    toks = rstok.tokenize(src)
+    items = rstok.parse_items(src, toks, 0, len(toks), None)
+    out = []
+
+    def walk(its, prefix):
+        for it in its:
+            if it.kind == 'impl':
+                out.append(prefix + 'impl ' + ' '.join((it.header or '').split()))
+            elif it.kind in ('struct', 'enum'):
+                head = src[it.start:it.kw]
+                ders = sorted(set(d.strip() for m in re.finditer(r'derive\(([^)]*)\)', head) for d in m.group(1).split(',') if d.strip()))
+                out.append(prefix + '%s %s derive(%s)' % (it.kind, it.name, ', '.join(ders)))
+            elif it.kind == 'mod' and it.children:
+                walk(it.children, prefix + 'mod %s :: ' % it.name)
+    walk(items, '')
+    return sorted(out)
